@@ -59,6 +59,7 @@ class Attribute:
         self._representation_code = representation_code if representation_code is not None else self._default_repr_code
         self._units = units
         self._value = value
+        self._value_is_default = False  #: True while the value is a default the library filled in at a write
         self._converter = converter  # to convert value
         self.parent_eflr = parent_eflr
 
@@ -97,6 +98,13 @@ class Attribute:
         """Set a new value of the attribute. Use the provided converter (if any) to transform/validate the value."""
 
         self._value = self.convert_value(val)
+        self._value_is_default = False
+
+    def _set_default_value(self, val: Any) -> None:
+        """Fill in a default derived by the library (from data, from another attribute); it is not the user's choice."""
+
+        self.value = val
+        self._value_is_default = True
 
     @property
     def representation_code(self) -> Union[RepresentationCode, None]:
